@@ -119,6 +119,9 @@ func NewLiveDB(db *sqlgen.DB) *LiveDB {
 type queryCacheKey struct {
 	clause string
 	args   interface{}
+	// db is the handle the query runs on: another database with the same schema
+	// (a shard), or a handle with other limits, must not be served this entry.
+	db *sqlgen.DB
 }
 
 // query reactively performs a SelectQuery
@@ -137,7 +140,7 @@ func (ldb *LiveDB) query(ctx context.Context, query *sqlgen.BaseSelectQuery) ([]
 
 	// Build a cache key for the query. Convert the args slice into an array so
 	// it can be stored as a map key.
-	key := queryCacheKey{clause: clause, args: internal.MakeHashable(args)}
+	key := queryCacheKey{clause: clause, args: internal.MakeHashable(args), db: ldb.DB}
 
 	result, err := reactive.Cache(ctx, key, func(ctx context.Context) (interface{}, error) {
 		// Build a tester for the dependency.
